@@ -210,6 +210,7 @@ func runPath(pr *program, cfg *config, solver *Solver, item workItem, seen *inte
 	syncStates = map[*value]interface{}{}
 	resetEnvModels()
 	S = newScheduler()
+	R = nil
 	P = newPath(item.Prefix, solver)
 	P.bounds = parseBounds(cfg.bounds)
 	P.wantSample = item.Sample
@@ -268,6 +269,8 @@ func runPath(pr *program, cfg *config, solver *Solver, item workItem, seen *inte
 		P.violation("no-deadlock", "deadlock", end.detail, false)
 	case "fatal":
 		P.violation("no-fatal", "fatal", end.detail, false)
+	case "race":
+		P.violation("no-data-race", "race", end.detail, false)
 	}
 	if item.Sample || len(res.Violations) > 0 {
 		smp := &PathSample{}
